@@ -4,5 +4,5 @@ CONSTANTS
   MaxEnq = 4
   MaxLen = 3
 INVARIANTS PrefixOK PendingOK FailureDiscards InvalidWriteInert OneWritePerCall Witnesses
-PROPERTIES EintrInert
+PROPERTIES EintrInert ClearOK
 CHECK_DEADLOCK FALSE
